@@ -5,10 +5,13 @@ Theorems about `Liftbridge.Groups` (model of server/groups.go) for EVERY history
 join / leave (= expire) / stream-deleted operations, every epoch sequence (refused operations
 included), every number of members and streams, every partition-count function, overlapping and
 disjoint subscriptions — by induction over the op list with the invariant `Proofs.Groups.Inv`.
-Only property statements here; the lemmas are in `Liftbridge/Proofs/Groups.lean`.
+Only property statements here; the lemmas are in `Liftbridge/Proofs/Groups.lean` and
+`Liftbridge/Proofs/GroupsLoad.lean` (the load counter `assignedCount`: exact after every history,
+and what follows from it for the balance clause).
 -/
 import Liftbridge.Model.Groups
 import Liftbridge.Proofs.Groups
+import Liftbridge.Proofs.GroupsLoad
 
 namespace Liftbridge.Props.C12
 open Liftbridge Liftbridge.Groups Liftbridge.Proofs.Groups
@@ -17,6 +20,15 @@ open Liftbridge Liftbridge.Groups Liftbridge.Proofs.Groups
 (a change breaks the build of this file and thereby the check). -/
 example : Gen.Groups.balanceEmptyCmp = .eq := rfl          -- `len(*subscribers) == 0` ⇒ early return
 example : Gen.Groups.removeRebalanceIfAssigned = true := rfl
+/-- The load counter and what it counts are written ONLY by the two `consumer` methods that keep them
+in step (and by the constructor): a write elsewhere in groups.go changes this regenerated table. -/
+example : Gen.Groups.loadWrites =
+    [("consumer.assignPartition", "c.assignments[stream]=append(streamAssignments,partition)"),
+     ("consumer.assignPartition", "c.assignedCount++"),
+     ("consumer.removeStreamAssignments", "c.assignedCount-=len(c.assignments[stream])"),
+     ("consumer.removeStreamAssignments", "delete(c.assignments,stream)"),
+     ("consumerGroup.addMember", "assignments:make(partitionAssignments)")] := rfl
+example : Gen.Groups.deletedLowersCount = true := rfl     -- StreamDeleted goes through removeStreamAssignments
 
 /-- **Exactly one holder.** After any history, for every stream that at least one member is
 subscribed to and every partition `p` of that stream, there is a member that holds `p`, that
@@ -105,6 +117,44 @@ theorem balanced_single_stream (parts : String → Nat) (e : Nat) (ops : List Op
   have c1 := hS.count m₁ h₁
   have c2 := hS.count m₂ h₂
   omega
+
+/-- **The load counter is exact.** After any history every member's `assignedCount` — the key of the
+least-loaded heaps, maintained separately by `assignPartition` / `removeStreamAssignments` — equals
+the number of partitions the member holds, summed over all streams (`asgTotal` = Σ_stream
+|assignments[stream]|), and the assignment map lists each stream once. Joins, leaves, stream
+deletions (which must LOWER the counter by what was held of the deleted stream) and refused
+operations all preserve it; no phantom load survives. -/
+theorem load_count_exact (parts : String → Nat) (e : Nat) (ops : List Op) (m : Cons)
+    (hm : m ∈ (run parts (Group.new e) ops).members) :
+    m.count = (asgTotal m.asg : Int) ∧ (m.asg.map (·.1)).Nodup := by
+  have h := cinv_run parts (Group.new e) ops (cinv_new e) m hm
+  exact ⟨h.count, h.keys⟩
+
+/-- **Balance among the members consuming one and the same single stream.** After ANY history
+(joins naming several streams, leaves, stream deletions, refused operations), two members that
+are subscribed to `s` and to nothing else hold numbers of partitions of `s` that differ by at
+most one — whatever the other members are subscribed to. -/
+theorem balanced_sole_subscribers (parts : String → Nat) (e : Nat) (ops : List Op) (s : String)
+    (m₁ m₂ : Cons)
+    (h₁ : m₁ ∈ (run parts (Group.new e) ops).members) (h₂ : m₂ ∈ (run parts (Group.new e) ops).members)
+    (hs₁ : s ∈ m₁.streams) (ho₁ : ∀ t ∈ m₁.streams, t = s)
+    (hs₂ : s ∈ m₂.streams) (ho₂ : ∀ t ∈ m₂.streams, t = s) :
+    (asgOf m₁.asg s).length ≤ (asgOf m₂.asg s).length + 1 :=
+  (binv_run parts _ ops (binv_new parts e)).bal s m₁ h₁ m₂ h₂ ⟨hs₁, ho₁⟩ ⟨hs₂, ho₂⟩
+
+/-- **Balance of a group consuming a single stream — the clause as the property states it.**
+Whenever, after any history, the group consumes a single stream `s` (no member is subscribed to
+anything but `s`; the group may have consumed other streams before that have been deleted since,
+and members left without subscription by a deletion may still be around), the partition counts of
+the members subscribed to `s` differ by at most one. `balanced_single_stream` above is the special
+case of histories that never named another stream. -/
+theorem balanced_when_single_stream (parts : String → Nat) (e : Nat) (ops : List Op) (s : String)
+    (hsingle : ∀ m ∈ (run parts (Group.new e) ops).members, ∀ t ∈ m.streams, t = s)
+    (m₁ m₂ : Cons)
+    (h₁ : m₁ ∈ (run parts (Group.new e) ops).members) (h₂ : m₂ ∈ (run parts (Group.new e) ops).members)
+    (hs₁ : s ∈ m₁.streams) (hs₂ : s ∈ m₂.streams) :
+    (asgOf m₁.asg s).length ≤ (asgOf m₂.asg s).length + 1 :=
+  balanced_sole_subscribers parts e ops s m₁ m₂ h₁ h₂ hs₁ (hsingle m₁ h₁) hs₂ (hsingle m₂ h₂)
 
 /-- **The heap is faithfully abstracted.** `Less` = (assignedCount, id) has a unique least element
 among consumers with distinct ids, so what `Peek` returns after `heap.Init` does not depend on the
@@ -252,6 +302,32 @@ theorem replay_order_differs :
     ((run rParts (Group.new 0) rReplay).members.map fun m => (m.id, asgOf m.asg "a")) = [("x", [0, 1, 2]), ("y", [])] := by
   decide
 
+/-! ### Rebuilding a group from a snapshot
+
+A metadata snapshot carries a group's members and their subscriptions, not the assignments;
+`Restore → newConsumerGroup` re-adds the members one by one in the order of the snapshot
+(`Server.Snapshot` ranges over the map `GetMembers` returns: any order). -/
+
+def oParts : String → Nat := fun s => if s = "a" then 1 else if s = "s" then 1 else 0
+/-- the group as the log builds it -/
+def oLive : List Op := [.join "m1" ["a", "s"] 0, .join "m2" ["a"] 0]
+/-- the group as `newConsumerGroup` rebuilds it from a snapshot that lists m2 first -/
+def oRestored : List Op := [.join "m2" ["a"] 0, .join "m1" ["a", "s"] 0]
+
+/-- Observation (DESIGN.md §6 — not claimed as a violation of C12 as stated, which speaks of servers
+that APPLIED the same op sequence): the assignments depend on the order in which the members were
+added. Streams a and s with one partition each; the log creates the group with m1{a,s}, m2{a}
+(live: m1 s:[0], m2 a:[0]); a snapshot listing m2 before m1 restores m1 a:[0] s:[0], m2 nothing —
+same members, same subscriptions, same epoch. Both groups satisfy every other theorem of this file.
+Measured on the real server by C06's stand-by scenarios (corpus/C06/group-assignments-after-restore.ops). -/
+theorem restore_order_differs :
+    (run oParts (Group.new 0) oLive).epoch = (run oParts (Group.new 0) oRestored).epoch ∧
+    ((run oParts (Group.new 0) oLive).members.map fun m => (m.id, m.streams, m.asg)) =
+      [("m1", ["a", "s"], [("s", [0])]), ("m2", ["a"], [("a", [0])])] ∧
+    ((run oParts (Group.new 0) oRestored).members.map fun m => (m.id, m.streams, m.asg)) =
+      [("m2", ["a"], []), ("m1", ["a", "s"], [("a", [0]), ("s", [0])])] := by
+  refine ⟨by decide, by decide, by decide⟩
+
 /-! ### non-vacuity -/
 
 /-- The hypotheses of `exactly_one` are satisfiable and the history is not degenerate: three
@@ -274,5 +350,21 @@ example :
   intro op hop
   simp only [List.mem_cons, List.mem_nil_iff, or_false] at hop
   rcases hop with h | h | h | h <;> subst h <;> first | trivial | decide
+
+/-- `balanced_when_single_stream` and `load_count_exact` are not vacuous: x subscribes {bar, foo},
+y only {bar}; foo (3 partitions, all held by x) is deleted while the loads are unequal (x 4, y 3);
+the group then consumes the single stream bar (4 partitions), which is shared 2/2, also after z
+joins and leaves again; the counters are 2 and 2 (a counter not lowered by the deletion would
+leave x with a phantom load of 3 and bar split 1/3). -/
+example :
+    let parts : String → Nat := fun s => if s = "foo" then 3 else if s = "bar" then 4 else 0
+    let ops : List Op := [.join "x" ["foo", "bar"] 1, .join "y" ["bar"] 2, .deleted "foo" 3,
+      .join "z" ["bar"] 4, .leave "z" 5]
+    let g₂ := run parts (Group.new 0) (ops.take 2)
+    let g := run parts (Group.new 0) ops
+    (g₂.members.map fun m => (m.id, m.count)) = [("x", 4), ("y", 3)] ∧
+    (∀ m ∈ g.members, ∀ t ∈ m.streams, t = "bar") ∧
+    (g.members.map fun m => (m.id, asgOf m.asg "bar", m.count)) = [("x", [0, 2], 2), ("y", [1, 3], 2)] := by
+  decide
 
 end Liftbridge.Props.C12
